@@ -48,7 +48,8 @@ def s_ctor():
     return st.fixed_dictionaries({"kind": st.just("ctor"), "a": st.lists(gens.angles(many_turns=False), min_size=3, max_size=3),
                                   "axis": gens.axis3(-3, 6), "mag": gens.rot_angles(-12), "unit": st.sampled_from(["rad", "deg"]),
                                   "order": st.sampled_from(ORDERS), "sep": gens.fl(1e-3, PI - 1e-3), "perp": gens.direction3(),
-                                  "len2": st.one_of(st.just(1.0), gens.logmag(-3, 6)), "t": gens.trans(3, -6, 6)})
+                                  "len2": st.one_of(st.just(1.0), gens.logmag(-3, 6)), "t": gens.trans(3, -6, 6),
+                                  "turns": st.one_of(gens.rot_angles(-12), gens.fl(PI, 25.0))})
 
 
 def s_embed():
@@ -286,6 +287,20 @@ def _ctor(case):
         refs.expm_so3(w))
     cmp("Exp", [("SO3", lambda: L.SO3.Exp(w.copy())), ("SE3", lambda: L.SE3.Exp(np.r_[0.0, 0.0, 0.0, w])), ("Twist3", lambda: L.Twist3(np.r_[0.0, 0.0, 0.0, w]))],
         refs.expm_so3(w))
+    # a general twist (rotation of up to several turns, translation with a component along the axis) through the
+    # matrix, twist and dual-quaternion routes
+    w2 = refs.unit(case["axis"]) * case.get("turns", case["mag"])
+    tv = arr(case["t"])
+    tv = tv / max(1.0, float(np.max(np.abs(tv)))) * 3.0
+    Tfull = refs.mp_expm(refs.hat6(tv, w2))
+    S6 = np.r_[tv, w2]
+    tsc = max(1.0, float(np.max(np.abs(Tfull[:3, 3]))))
+    for rep, f in (("SE3.Exp", lambda: L.SE3.Exp(S6.copy())), ("Twist3.SE3", lambda: L.Twist3(S6.copy()).SE3()), ("Twist3.exp", lambda: L.Twist3(S6.copy()).exp()),
+                   ("UDQ(Twist3.SE3)", lambda: L.UnitDualQuaternion(L.Twist3(S6.copy()).SE3()).SE3()),
+                   ("Twist3*Twist3", lambda: (L.Twist3(S6 / 2) * L.Twist3(S6 / 2)).SE3())):
+        ok, o_ = c.lib("twist:" + rep, f)
+        if ok:
+            c.eq("twist:%s/value" % rep, m_of(o_), Tfull, TOL, tsc)
     # two-vector frame: third column along a, second in the plane of (o, a)
     av = refs.unit(case["axis"])
     perp = np.cross(av, refs.unit(case["perp"]))
